@@ -35,7 +35,7 @@ fn cexs(e: &Exs) -> String {
 }
 
 fn gen_corpus(rng: &mut Rng) -> String {
-    let surf = ["a", "b", "東京", " ", "\u{3000}", "EOS", "", "x y", "é", "😀", "\r", "q\"", "EOS ", "\u{feff}", "\u{feff}a"];
+    let surf = ["a", "b", "東京", " ", "\u{3000}", "EOS", "", "x y", "é", "😀", "\r", "q\"", "EOS ", "\u{feff}", "\u{feff}a", "#", "#東京", ";a"];
     let feat = ["名詞,一般", "f", "", "g ", "h\u{3000}", "EOS", "a,b,\"c\"", "x\ry", "*"];
     let nl = if rng.chance(1, 5) { "\r\n" } else { "\n" };
     let mut s = String::new();
